@@ -230,6 +230,11 @@ class Peer:
             # a valid answer; afterwards - the request is done, the connection idle - the peer closes (orderly / abruptly)
             tr.deliver(ans, d, "ans")
             tr.peer_close(f.get("d2", d + 1), None, eof=(k == "anseof"))
+        elif k == "anshead":
+            # a valid answer; afterwards - the request is done - the first piece of a duplicate of it arrives (idle protocol)
+            tr.deliver(ans, d, "ans")
+            split = max(1, min(f.get("split", 9), len(ans) - 1))
+            tr.deliver(ans[:split], f.get("d2", d + 1), "head")
         elif k == "anserr":
             # a valid answer, then an OS-level error on the same transport (request already done)
             tr.deliver(ans, d, "ans")
